@@ -79,13 +79,20 @@ Print Assumptions C17_reserved_free_is_the_compilers.
    services; summary topics and messages) are pairwise distinct and differ from the generated names
    ([user_names_ok]).  That the GENERATED names - six schemas, status values, the query service and its six
    messages, the publish topic and its message - never collide among themselves holds for EVERY declaration
-   (status values: because their protobuf canonical names differ, decl_enums_ok), and the distinctness of the
+   (status values: because their protobuf canonical names differ, sp_enums_ok), and the distinctness of the
    whole scopes - the link step's package symbol tables - is DERIVED from it, not assumed *)
 Theorem C17_generated_names_never_collide : forall e,
-  (decl_enums_ok e = true -> NoDup (sp_main_generated e))
+  (sp_enums_ok e = true -> NoDup (sp_main_generated e))
   /\ NoDup (sp_service_generated e) /\ NoDup (sp_topic_generated e).
 Proof. intros e. exact (conj (generated_main_nodup e) (conj (generated_service_nodup e) (generated_topic_nodup e))). Qed.
 Print Assumptions C17_generated_names_never_collide.
+
+(* "the options of one enum are distinct names for protobuf" ([sp_enums_ok], stated in EntitySpec.v on the declaration:
+   statuses, block enums, inline enums at any depth, with the documented value lists) is exactly the check the model
+   of the converter runs on the enums it builds (fix 4fb405b) *)
+Theorem C17_enum_names_predicate_is_the_converters : forall e, sp_enums_ok e = decl_enums_ok e.
+Proof. exact enums_ok_eq. Qed.
+Print Assumptions C17_enum_names_predicate_is_the_converters.
 
 Theorem C17_scopes_distinct_from_user_names : forall e, in_quantifier e = true ->
   NoDup (sp_main_scope e) /\ NoDup (sp_service_scope e) /\ NoDup (sp_topic_scope e).
